@@ -2,7 +2,7 @@
    Only theorem statements closed by `exact`, each followed by Print Assumptions.
    Crypto primitives never appear as axioms: sha256 is an arbitrary 32-byte-valued function, `sign` an arbitrary function,
    the validators' checks are arbitrary predicates `chk` accepting what the signing function produces. *)
-From Packet Require Import Model Spec ReadersProofs EncProofs DecGeneric DecProofs DecData DecInterest EncData EncInterest Roundtrip GenSigners SigProofs Tamper TamperInt.
+From Packet Require Import Model Spec ReadersProofs EncProofs DecGeneric DecProofs DecData DecInterest EncData EncInterest Roundtrip GenSigners SigProofs Tamper TamperInt TamperName.
 Open Scope N_scope.
 Arguments ROk {A}.
 
@@ -96,27 +96,29 @@ Theorem tamper_any_bit_data : forall sign nm cfg content sg si est e sv,
 Proof. exact tamper_any_bit_read_data_thm. Qed.
 Print Assumptions tamper_any_bit_data.
 
-(* Tampering, signed Interest: ANY single bit of the ApplicationParameters, SignatureInfo or SignatureValue elements (T, L
-   and V octets: everything from the parameters element to the end of the packet — the second signed range and the
-   signature).  If ReadInterest still returns an Interest (whatever the hash function makes of the parameters digest),
-   the (covered bytes, signature value) pair differs from the signed one.
-   NOT proved (tamper_name_bit_interest_partial): bits of the name components inside the first signed range (the name
-   without its digest component).  They are covered by the harness's exhaustive single-bit sweep against the real
-   validators — a test. *)
-Theorem tamper_any_bit_interest_tail : forall (sha256 : bytes -> bytes), (forall x, length (sha256 x) = 32%nat) ->
+(* Tampering, signed Interest: ANY single bit inside the signed portion or the signature — the two signed ranges
+   (1) the name's value up to, not including, its ParametersSha256Digest component [s1, s1 + |name without digest|), s1 =
+   outer header + Name header located on the bytes with value_offset; (2) the ApplicationParameters and SignatureInfo
+   elements — and (3) the SignatureValue element: (2)+(3) = everything from the parameters element to the end of the
+   packet.  T, L and V octets alike.  If ReadInterest still returns an Interest (whatever the arbitrary hash function makes
+   of the parameters digest), the (covered bytes, signature value) pair differs from the signed one.
+   Outside the statement because not covered by the signature: the Name's own T/L, the digest component (guarded by the
+   parameters digest: bad_digest_rejected) and the unsigned CanBePrefix..HopLimit fields. *)
+Theorem tamper_any_bit_interest : forall (sha256 : bytes -> bytes), (forall x, length (sha256 x) = 32%nat) ->
   forall sign nm cfg a sg si est e sv,
   let pre := strip_digest nm in
   int_siginfo sg true = Ok (si, est) -> 0 < est -> name_ok pre ->
   iconfig_ok cfg -> signer_ok sg -> signer_int_ok sg -> int_fits (pre ++ [mkc 2 zeros32]) cfg (Some a) si est ->
   make_interest sha256 sign nm cfg (Some a) sg = Ok e -> sign (e_cov e) = Some sv ->
   let W := concat (e_wire e) in
+  let s1 := (value_offset W + value_offset (skipn (value_offset W) W))%nat in
   let tail := enc_elems (int_tail_elems (Some (concat a)) si (Some sv)) in
-  forall i, (length W - length tail <= i / 8 < length W)%nat ->
+  forall i, (s1 <= i / 8 < s1 + length (name_inner pre))%nat \/ (length W - length tail <= i / 8 < length W)%nat ->
   forall r, View r (flip_bit W i) 0 ->
   forall i' cov', read_interest sha256 r = ROk i' cov' ->
     ~ (concat cov' = concat (e_cov e) /\ io_sv (obs_int i') = Some sv).
-Proof. exact tamper_tail_bit_interest_thm. Qed.
-Print Assumptions tamper_any_bit_interest_tail.
+Proof. exact tamper_any_bit_interest_thm. Qed.
+Print Assumptions tamper_any_bit_interest.
 
 (* Tampering, well-formed modifications (Data).  Every modification that leaves a well-formed Data with different name /
    MetaInfo / content / SignatureInfo / signature value is decoded to a (covered bytes, signature value) pair different from
